@@ -47,46 +47,46 @@ theorem keepInv_altAlter : KeepInv .altAlter KeepsNulls :=
 theorem then_copy {k2 : Kind} (hk2 : k2.inPlace = false) {n : Nat} {opt : Opt} {H1 : Heap} {r1 : Ref}
     {t1 : T} (hoe : opt.omitEmpty = false) (hd1 : denote n H1 r1 = some t1)
     (hp : t1.pure k2.src = true) (hkp : t1.keeps k2 opt = true) :
-    ∃ H2 r2, conv k2 n opt H1 r1 = some (H2, r2) ∧ denote n H2 r2 = some (t1.toForm k2.dst) := by
+    ∃ H2 r2, conv k2 n opt H1 r1 = some (H2, r2) ∧ denote n H2 r2 = some (t1.toForm k2.dst k2.fillsNil) := by
   obtain ⟨H2, r2, hc, _, hd, _⟩ := copy_spec k2 hk2 n opt H1 r1 t1 hoe hd1 hp hkp
   exact ⟨H2, r2, hc, hd⟩
 
 /-- `Simplify(Generify(v)) = v` -/
 theorem generify_simplify (n : Nat) (opt : Opt) (H : Heap) (r : Ref) (t : T) (ho : KeepsNulls opt)
-    (hd : denote n H r = some t) (hs : t.Simple) :
+    (hd : denote n H r = some t) (hs : t.JsonLike) :
     roundTrip .generify .simplify n opt H r = some t := by
-  obtain ⟨H1, r1, hc1, _, hd1, _⟩ := copy_spec .generify rfl n opt H r t ho.2 hd hs
+  obtain ⟨H1, r1, hc1, _, hd1, _⟩ := copy_spec .generify rfl n opt H r t ho.2 hd hs.1
     (keeps_of_inv keepInv_generify t opt ho.1)
   obtain ⟨H2, r2, hc2, hd2⟩ := then_copy (k2 := .simplify) rfl ho.2 hd1
-    (pure_toForm .gen .simple t hs) (keeps_of_inv keepInv_simplify _ opt trivial)
+    (pure_toForm .gen .simple _ t hs.1) (keeps_of_inv keepInv_simplify _ opt trivial)
   simp only [roundTrip, pipeline, hc1, hc2]
   rw [hd2]
-  simp only [Kind.dst, toForm_toForm]
-  rw [toForm_of_pure .simple t hs]
+  simp [Kind.dst, Kind.fillsNil, toForm_toForm]
+  rw [toForm_of_pure .simple _ t hs.1 (Or.inr hs.2)]
 
 /-- `Generify(v).Alter() = v` (the fresh generic tree is converted back in place) -/
 theorem generify_nodeAlter (n : Nat) (opt : Opt) (H : Heap) (r : Ref) (t : T) (ho : KeepsNulls opt)
-    (hd : denote n H r = some t) (hs : t.Simple) :
+    (hd : denote n H r = some t) (hs : t.JsonLike) :
     roundTrip .generify .nodeAlter n opt H r = some t := by
-  obtain ⟨H1, r1, hc1, _, hd1, S, hS, hnd, _⟩ := copy_spec .generify rfl n opt H r t ho.2 hd hs
+  obtain ⟨H1, r1, hc1, _, hd1, S, hS, hnd, _⟩ := copy_spec .generify rfl n opt H r t ho.2 hd hs.1
     (keeps_of_inv keepInv_generify t opt ho.1)
   obtain ⟨H2, r2, hc2, _, _, hd2, _⟩ := alter_spec .nodeAlter rfl n opt H1 r1 _ S ho.2 hd1 hS hnd
-    (pure_toForm .gen .simple t hs) (keeps_of_inv keepInv_nodeAlter _ opt trivial)
+    (pure_toForm .gen .simple _ t hs.1) (keeps_of_inv keepInv_nodeAlter _ opt trivial)
   simp only [roundTrip, pipeline, hc1, hc2]
   rw [hd2]
-  simp only [Kind.dst, toForm_toForm]
-  rw [toForm_of_pure .simple t hs]
+  simp [Kind.dst, Kind.fillsNil, toForm_toForm]
+  rw [toForm_of_pure .simple _ t hs.1 (Or.inr hs.2)]
 
 /-- `alt.Dup(v) = alt.Decompose(v) = v` -/
 theorem decompose_value (n : Nat) (opt : Opt) (H : Heap) (r : Ref) (t : T) (ho : KeepsNulls opt)
-    (hd : denote n H r = some t) (hs : t.Simple) :
+    (hd : denote n H r = some t) (hs : t.JsonLike) :
     ∃ H' r', conv .decompose n opt H r = some (H', r') ∧ denote n H' r' = some t := by
-  obtain ⟨H1, r1, hc1, _, hd1, _⟩ := copy_spec .decompose rfl n opt H r t ho.2 hd hs
+  obtain ⟨H1, r1, hc1, _, hd1, _⟩ := copy_spec .decompose rfl n opt H r t ho.2 hd hs.1
     (keeps_of_inv keepInv_decompose t opt ho)
   refine ⟨H1, r1, hc1, ?_⟩
   rw [hd1]
-  simp only [Kind.dst]
-  rw [toForm_of_pure .simple t hs]
+  simp only [Kind.dst, Kind.fillsNil]
+  rw [toForm_of_pure .simple _ t hs.1 (Or.inr hs.2)]
 
 /-- `Node.Dup` on a generic tree -/
 theorem genDup_value (n : Nat) (opt : Opt) (H : Heap) (r : Ref) (t : T) (hoe : opt.omitEmpty = false)
@@ -96,8 +96,8 @@ theorem genDup_value (n : Nat) (opt : Opt) (H : Heap) (r : Ref) (t : T) (hoe : o
     (keeps_of_inv keepInv_genDup t opt trivial)
   refine ⟨H1, r1, hc1, ?_⟩
   rw [hd1]
-  simp only [Kind.dst]
-  rw [toForm_of_pure .gen t hs]
+  simp only [Kind.dst, Kind.fillsNil]
+  rw [toForm_of_pure .gen _ t hs (Or.inl rfl)]
 
 /-- `alt.Alter(v) = v` on simple data, in place: same cells, same value -/
 theorem altAlter_value (n : Nat) (opt : Opt) (H : Heap) (r : Ref) (t : T) (S : List Addr)
@@ -108,8 +108,8 @@ theorem altAlter_value (n : Nat) (opt : Opt) (H : Heap) (r : Ref) (t : T) (S : L
     (keeps_of_inv keepInv_altAlter t opt ho)
   refine ⟨H1, r1, hc1, ?_, had⟩
   rw [hd1]
-  simp only [Kind.dst]
-  rw [toForm_of_pure .simple t hs]
+  simp only [Kind.dst, Kind.fillsNil]
+  rw [toForm_of_pure .simple _ t hs (Or.inl rfl)]
 
 /-! ### GenAlter
 
@@ -132,11 +132,11 @@ theorem genAlter_nodeAlter_partial (n : Nat) (opt : Opt) (H : Heap) (r : Ref) (t
     simp only [GenAlterLoses, Bool.not_eq_false] at hl; exact hl
   obtain ⟨H1, r1, hc1, _, _, hd1, hS1, _⟩ := alter_spec .genAlter rfl n opt H r t S ho.2 hd hS hnd hs hk
   obtain ⟨H2, r2, hc2, _, _, hd2, _⟩ := alter_spec .nodeAlter rfl n opt H1 r1 _ S ho.2 hd1 hS1 hnd
-    (pure_toForm .gen .simple t hs) (keeps_of_inv keepInv_nodeAlter _ opt trivial)
+    (pure_toForm .gen .simple _ t hs) (keeps_of_inv keepInv_nodeAlter _ opt trivial)
   simp only [roundTrip, pipeline, hc1, hc2]
   rw [hd2]
-  simp only [Kind.dst, toForm_toForm]
-  rw [toForm_of_pure .simple t hs]
+  simp [Kind.dst, Kind.fillsNil, toForm_toForm]
+  rw [toForm_of_pure .simple _ t hs (Or.inl rfl)]
 
 /-- `Simplify(GenAlter(v)) = v` unless `GenAlterLoses` -/
 theorem genAlter_simplify_partial (n : Nat) (opt : Opt) (H : Heap) (r : Ref) (t : T) (S : List Addr)
@@ -147,11 +147,11 @@ theorem genAlter_simplify_partial (n : Nat) (opt : Opt) (H : Heap) (r : Ref) (t 
     simp only [GenAlterLoses, Bool.not_eq_false] at hl; exact hl
   obtain ⟨H1, r1, hc1, _, _, hd1, _⟩ := alter_spec .genAlter rfl n opt H r t S ho.2 hd hS hnd hs hk
   obtain ⟨H2, r2, hc2, hd2⟩ := then_copy (k2 := .simplify) rfl ho.2 hd1
-    (pure_toForm .gen .simple t hs) (keeps_of_inv keepInv_simplify _ opt trivial)
+    (pure_toForm .gen .simple _ t hs) (keeps_of_inv keepInv_simplify _ opt trivial)
   simp only [roundTrip, pipeline, hc1, hc2]
   rw [hd2]
-  simp only [Kind.dst, toForm_toForm]
-  rw [toForm_of_pure .simple t hs]
+  simp [Kind.dst, Kind.fillsNil, toForm_toForm]
+  rw [toForm_of_pure .simple _ t hs (Or.inl rfl)]
 
 /-- the full statement for `GenAlter` -/
 def C18_genAlter_full : Prop :=
@@ -202,7 +202,7 @@ theorem genAlter_same_cell (n : Nat) (opt : Opt) (H : Heap) (r : Ref) (t : T) (S
 /-- `Generify(v)` is `v` written in the generic form -/
 theorem generify_value (n : Nat) (opt : Opt) (H : Heap) (r : Ref) (t : T) (ho : KeepsNulls opt)
     (hd : denote n H r = some t) (hs : t.Simple) :
-    ∃ H' r', conv .generify n opt H r = some (H', r') ∧ denote n H' r' = some (t.toForm .gen) := by
+    ∃ H' r', conv .generify n opt H r = some (H', r') ∧ denote n H' r' = some (t.toForm .gen true) := by
   obtain ⟨H1, r1, hc1, _, hd1, _⟩ := copy_spec .generify rfl n opt H r t ho.2 hd hs
     (keeps_of_inv keepInv_generify t opt ho.1)
   exact ⟨H1, r1, hc1, hd1⟩
@@ -210,7 +210,7 @@ theorem generify_value (n : Nat) (opt : Opt) (H : Heap) (r : Ref) (t : T) (ho : 
 /-- `n.Simplify()` is `n` written in the simple form -/
 theorem simplify_value (n : Nat) (opt : Opt) (H : Heap) (r : Ref) (t : T) (hoe : opt.omitEmpty = false)
     (hd : denote n H r = some t) (hs : t.pure .gen = true) :
-    ∃ H' r', conv .simplify n opt H r = some (H', r') ∧ denote n H' r' = some (t.toForm .simple) := by
+    ∃ H' r', conv .simplify n opt H r = some (H', r') ∧ denote n H' r' = some (t.toForm .simple false) := by
   obtain ⟨H1, r1, hc1, _, hd1, _⟩ := copy_spec .simplify rfl n opt H r t hoe hd hs
     (keeps_of_inv keepInv_simplify t opt trivial)
   exact ⟨H1, r1, hc1, hd1⟩
@@ -220,14 +220,14 @@ and its simple equivalent are written identically — because the writers' only 
 generic node writes its `Simplify()` result (`WriterPkg.viaSimplify`, read from the source). -/
 theorem writers_clause {α : Type} (p : WriterPkg) (w : T → α) (n : Nat) (Hg : Heap) (rg : Ref)
     (Hs : Heap) (rs : Ref) (t : T) (hg : denote n Hg rg = some t) (hp : t.pure .gen = true)
-    (hs : denote n Hs rs = some (t.toForm .simple)) :
-    writeRoot p w n Hg rg = writeRoot p w n Hs rs ∧ writeRoot p w n Hs rs = some (w (t.toForm .simple)) := by
-  have hps : (t.toForm .simple).pure .simple = true := pure_toForm .simple .gen t hp
-  have hR : writeRoot p w n Hs rs = some (w (t.toForm .simple)) := by simp [writeRoot, hs, hps]
+    (hs : denote n Hs rs = some (t.toForm .simple false)) :
+    writeRoot p w n Hg rg = writeRoot p w n Hs rs ∧ writeRoot p w n Hs rs = some (w (t.toForm .simple false)) := by
+  have hps : (t.toForm .simple false).pure .simple = true := pure_toForm .simple .gen false t hp
+  have hR : writeRoot p w n Hs rs = some (w (t.toForm .simple false)) := by simp [writeRoot, hs, hps]
   refine ⟨?_, hR⟩
   rw [hR]
   by_cases hsimp : t.pure .simple = true
-  · simp [writeRoot, hg, hsimp, toForm_of_pure .simple t hsimp]
+  · simp [writeRoot, hg, hsimp, toForm_of_pure .simple false t hsimp (Or.inl rfl)]
   · obtain ⟨H', r', hc, hd'⟩ := simplify_value n ⟨false, false⟩ Hg rg t rfl hg hp
     have hv : p.viaSimplify = true := by cases p <;> rfl
     simp [writeRoot, hg, hsimp, hv, hc, hd']
@@ -344,6 +344,15 @@ def exTree : T :=
 
 example : denote 3 exHeap exRoot = some exTree := rfl
 example : exTree.Simple := rfl
+example : exTree.JsonLike := ⟨rfl, rfl⟩
+-- a nil slice and an empty slice are different values; the allocating conversions turn the first into
+-- the second (so `JsonLike`, not `Simple`, is the hypothesis of their round trips), the others keep it
+example : denote 1 [] (.nilArr .simple) = some (.nilArr .simple) := rfl
+example : denote 1 [.arr []] (.arr .simple 0) = some (.arr .simple []) := rfl
+example : conv .generify 1 ⟨false, false⟩ [] (.nilArr .simple) = some ([.arr []], .arr .gen 0) := rfl
+example : conv .decompose 1 ⟨false, false⟩ [] (.nilArr .simple) = some ([.arr []], .arr .simple 0) := rfl
+example : conv .simplify 1 ⟨false, false⟩ [] (.nilArr .gen) = some ([], .nilArr .simple) := rfl
+example : conv .simplify 1 ⟨false, false⟩ [.arr []] (.arr .gen 0) = some ([.arr [], .arr []], .arr .simple 1) := rfl
 example : owns 3 exHeap exRoot = some [3, 1, 0, 1, 0, 2] := rfl          -- shared: not a tree
 example : roundTrip .generify .simplify 3 ⟨false, false⟩ exHeap exRoot = some exTree := rfl
 example : ∃ S, owns 3 witnessHeap witnessRoot = some S ∧ S.Nodup := ⟨[2, 0, 1], rfl, by decide⟩
